@@ -195,6 +195,7 @@ type ReplayFile struct {
 	Sample    interface{}       `json:"sample,omitempty"`
 	Env       map[string]string `json:"env"`
 	FromSeed  bool              `json:"from_seed,omitempty"` // choices are regenerated from (seed, property, run)
+	KnownSig  string            `json:"known_signature,omitempty"` // set by counterfactual classification
 	ShrinkRun int               `json:"shrink_executions"`
 	OrigLen   int               `json:"original_choice_count"`
 }
@@ -555,131 +556,107 @@ func BatchMain(self, verifDir string, p *Prop, tier string) int {
 	}
 	sort.Strings(sigs)
 
-	// violations: minimise, write replay, classify
+	// violations: every signature is minimised, classified and confirmed in CHILD
+	// processes (a change that makes sqlittle crash the process must not take the
+	// batch down): `shrink` rewrites the replay file in place, `replay` confirms.
 	known := loadKnown(verifDir)
 	exit := deathExit
-	hungInProcess := false
 	var knownSeen []string
 	nviol := 0
-	if len(sigs) > 0 {
-		env, closer, err := p.NewEnv(tier)
-		if err != nil {
-			fmt.Fprintf(os.Stderr, "HARNESS-TROUBLE env for minimisation: %v\n", err)
-			return 2
+	budgetEach := 90
+	if len(sigs) > 4 {
+		budgetEach = 30
+	}
+	for k, sig := range sigs {
+		r := bySig[sig]
+		dir := filepath.Join(verifDir, "replays", p.ID)
+		os.MkdirAll(dir, 0o755)
+		name := sanitizeRe.ReplaceAllString(strings.TrimPrefix(sig, p.ID+":"), "_")
+		if len(name) > 80 {
+			name = name[:80]
 		}
-		budgetEach := 90 * time.Second
-		if len(sigs) > 4 {
-			budgetEach = 30 * time.Second
+		path := filepath.Join(dir, name+".json")
+		rf := &ReplayFile{Property: p.ID, Engine: p.Engine, Tier: tier, Seed: seed, Run: r.Idx, Choices: r.Choices,
+			Signature: sig, Violation: r.Viol, Decoded: r.Decoded, Sample: r.Sample, Env: EnvInfo(), OrigLen: len(r.Choices)}
+		b, _ := json.MarshalIndent(rf, "", " ")
+		os.WriteFile(path, b, 0o644)
+		if k < 8 {
+			sh := exec.Command(self, "shrink", path, strconv.Itoa(budgetEach))
+			sh.Env = childEnv()
+			tb := &tailBuf{}
+			sh.Stderr = tb
+			sh.Stdout = tb
+			runChild(sh, budgetEach+max(p.MaxRunSecs, 60)+30)
 		}
-		for k, sig := range sigs {
-			r := bySig[sig]
-			choices := r.Choices
-			origLen := len(choices)
-			shrunk := 0
-			if k < 8 {
-				test := func(cand []uint32) (bool, []uint32) {
-					if hungInProcess {
-						return false, nil
-					}
-					res, c, ok := ExecuteTimeout(max(p.MaxRunSecs, 60), p.ID, tier, r.Idx, NewReplay(cand), env, nil, p.Fn, 0)
-					if !ok {
-						hungInProcess = true
-						return false, nil
-					}
-					return res.Viol != nil && res.Viol.Sig == sig && res.Trouble == "", c.Src.Rec
-				}
-				choices, shrunk = Shrink(choices, test, 400, budgetEach)
+		// what the shrinker left (it rewrites the file atomically on every improvement)
+		if b2, err := os.ReadFile(path); err == nil {
+			rf2 := &ReplayFile{}
+			if json.Unmarshal(b2, rf2) == nil && rf2.Signature == sig {
+				rf = rf2
 			}
-			if hungInProcess {
-				fmt.Fprintf(os.Stderr, "HARNESS-TROUBLE property=%s a re-execution of run %d hung in the batch process (violation %q was reported by the worker: %s)\n", p.ID, r.Idx, sig, r.Viol.Msg)
-				os.Exit(2)
+		}
+		ksig := sig
+		if rf.KnownSig != "" {
+			ksig = rf.KnownSig
+		}
+		isKnown := false
+		for _, f := range known.Findings {
+			if f.Property == p.ID && f.Signature == ksig {
+				isKnown = true
+				fmt.Printf("KNOWN-FINDING: property=%s %s (signature %s, replay %s)\n", p.ID, f.What, ksig, path)
+				knownSeen = append(knownSeen, ksig)
 			}
-			final, _ := Execute(p.ID, tier, r.Idx, NewReplay(choices), env, nil, p.Fn, 2000)
-			if final.Viol == nil || final.Viol.Sig != sig {
-				// Not reproducible inside this (long-lived) process. If it reproduces from
-				// its seed in a fresh process, state that outlives a run is involved
-				// (package-level variables of the system under test): report it, unminimised.
-				child := exec.Command(self, "one", p.ID, tier, strconv.FormatUint(seed, 10), strconv.Itoa(r.Idx))
-				child.Env = childEnv()
-				outb, _ := child.CombinedOutput()
-				if strings.Contains(string(outb), "VIOLSIG "+sig+"\n") {
-					rf := &ReplayFile{Property: p.ID, Engine: p.Engine, Tier: tier, Seed: seed, Run: r.Idx, FromSeed: true, Signature: sig,
-						Violation: r.Viol, Env: EnvInfo(), Decoded: r.Decoded, Sample: r.Sample}
-					dir := filepath.Join(verifDir, "replays", p.ID)
-					os.MkdirAll(dir, 0o755)
-					name := sanitizeRe.ReplaceAllString(strings.TrimPrefix(sig, p.ID+":"), "_")
-					path := filepath.Join(dir, name+".json")
-					b, _ := json.MarshalIndent(rf, "", " ")
-					os.WriteFile(path, b, 0o644)
-					isKnown := false
-					for _, f := range known.Findings {
-						if f.Property == p.ID && f.Signature == sig {
-							isKnown = true
-							fmt.Printf("KNOWN-FINDING: property=%s %s (signature %s)\n", p.ID, f.What, sig)
-							knownSeen = append(knownSeen, sig)
-						}
-					}
-					if !isKnown {
-						fmt.Printf("VIOLATION property=%s replay=%s\n  signature: %s\n  %s: %s\n  reproduces from its seed in a fresh process (run %d), not when re-executed inside the batch process: process-wide state is involved; not minimised\n", p.ID, path, sig, r.Viol.Kind, r.Viol.Msg, r.Idx)
-						exit = 1
-						nviol++
-					}
-					continue
-				}
-				closer()
-				fmt.Fprintf(os.Stderr, "HARNESS-TROUBLE property=%s violation %q of run %d did not reproduce on re-execution (neither in the batch process nor from its seed in a fresh process)\n", p.ID, sig, r.Idx)
-				return 2
-			}
-			ksig := sig
-			if p.Classify != nil {
-				rerun := func(cfg map[string]string) *RunResult {
-					rr, _ := Execute(p.ID, tier, r.Idx, NewReplay(choices), env, cfg, p.Fn, 0)
-					return rr
-				}
-				if s := p.Classify(final.Viol, rerun); s != "" {
-					ksig = s
-				}
-			}
-			rf := &ReplayFile{Property: p.ID, Engine: p.Engine, Tier: tier, Seed: seed, Run: r.Idx, Choices: choices,
-				Signature: sig, Violation: final.Viol, LogHash: final.Hash, Decoded: final.Decoded, Sample: final.Sample,
-				Env: EnvInfo(), ShrinkRun: shrunk, OrigLen: origLen}
-			_, c2 := Execute(p.ID, tier, r.Idx, NewReplay(choices), env, nil, p.Fn, 3000)
-			rf.Log = c2.Log.Lines
-			dir := filepath.Join(verifDir, "replays", p.ID)
-			os.MkdirAll(dir, 0o755)
-			name := sanitizeRe.ReplaceAllString(strings.TrimPrefix(ksig, p.ID+":"), "_")
-			if len(name) > 80 {
-				name = name[:80]
-			}
-			path := filepath.Join(dir, name+".json")
-			b, _ := json.MarshalIndent(rf, "", " ")
-			os.WriteFile(path, b, 0o644)
-			isKnown := false
-			for _, f := range known.Findings {
-				if f.Property == p.ID && f.Signature == ksig {
-					isKnown = true
-					fmt.Printf("KNOWN-FINDING: property=%s %s (signature %s, replay %s)\n", p.ID, f.What, ksig, path)
-					knownSeen = append(knownSeen, ksig)
-				}
-			}
-			if !isKnown {
-				// confirm in a fresh process before reporting
-				cmd := exec.Command(self, "replay", path)
-				cmd.Env = childEnv()
-				outb, _ := cmd.CombinedOutput()
-				if cmd.ProcessState == nil || cmd.ProcessState.ExitCode() != 1 {
-					// reproduced twice in this process but not in a fresh one: state that
-					// outlives a run (package-level variables of the system under test) is
-					// involved. The violation is real; say how it replays.
-					fmt.Printf("  note: %s reproduces when re-executed in the batch process but not from a fresh process (process-wide state involved): %s\n", path, lastLines(string(outb), 1))
-				}
-				fmt.Printf("VIOLATION property=%s replay=%s\n", p.ID, path)
-				fmt.Printf("  signature: %s\n  %s: %s\n  minimised %d -> %d choices in %d executions\n", sig, final.Viol.Kind, final.Viol.Msg, origLen, len(choices), shrunk)
+		}
+		if isKnown {
+			continue
+		}
+		// confirm in a fresh process
+		cmd := exec.Command(self, "replay", path)
+		cmd.Env = childEnv()
+		tb := &tailBuf{}
+		cmd.Stdout, cmd.Stderr = tb, tb
+		code, hung := runChild(cmd, max(p.MaxRunSecs, 60)+30)
+		out := string(tb.buf)
+		switch {
+		case code == 1 && strings.Contains(out, "VIOLATION property="):
+			fmt.Printf("VIOLATION property=%s replay=%s\n", p.ID, path)
+			fmt.Printf("  signature: %s\n  %s: %s\n  minimised %d -> %d choices in %d executions\n", sig, rf.Violation.Kind, rf.Violation.Msg, rf.OrigLen, len(rf.Choices), rf.ShrinkRun)
+			exit = 1
+			nviol++
+		case code == 0:
+			// does not reproduce from the recorded choices in a fresh process: try the seed
+			// (state that outlives a run - package-level variables of the system under test)
+			child := exec.Command(self, "one", p.ID, tier, strconv.FormatUint(seed, 10), strconv.Itoa(r.Idx))
+			child.Env = childEnv()
+			ob := &tailBuf{}
+			child.Stdout, child.Stderr = ob, ob
+			runChild(child, max(p.MaxRunSecs, 60)+30)
+			if strings.Contains(string(ob.buf), "VIOLSIG "+sig+"\n") {
+				rf.FromSeed = true
+				rf.Choices = nil
+				b, _ := json.MarshalIndent(rf, "", " ")
+				os.WriteFile(path, b, 0o644)
+				fmt.Printf("VIOLATION property=%s replay=%s\n  signature: %s\n  %s: %s\n  reproduces from its seed in a fresh process (run %d) but not from the recorded choices: process-wide state is involved; not minimised\n", p.ID, path, sig, r.Viol.Kind, r.Viol.Msg, r.Idx)
 				exit = 1
 				nviol++
+			} else {
+				fmt.Fprintf(os.Stderr, "HARNESS-TROUBLE property=%s violation %q of run %d (reported by a worker: %s) does not reproduce in a fresh process, neither from its choices nor from its seed\n", p.ID, sig, r.Idx, r.Viol.Msg)
+				return 2
 			}
+		default:
+			// the replay itself died or hung: the recorded input kills the process
+			dsig := ""
+			if p.DeathSig != nil {
+				dsig = p.DeathSig(out, hung)
+			}
+			if dsig == "" {
+				fmt.Fprintf(os.Stderr, "HARNESS-TROUBLE property=%s replay of %s failed (exit %d, hung=%v):\n%s\n", p.ID, path, code, hung, lastLines(out, 20))
+				return 2
+			}
+			fmt.Printf("VIOLATION property=%s replay=%s\n  signature: %s\n  %s: %s\n  replaying it kills the process: %s (%s)\n", p.ID, path, sig, rf.Violation.Kind, rf.Violation.Msg, dsig, lastLines(out, 2))
+			exit = 1
+			nviol++
 		}
-		closer()
 	}
 
 	for _, f := range known.Findings {
@@ -899,4 +876,100 @@ func childEnv() []string {
 		}
 	}
 	return append(env, "GORACE=halt_on_error=1 exitcode=66")
+}
+
+// runChild runs a child process with a timeout; returns its exit code (-1 if it was killed by a signal) and whether it hung.
+func runChild(cmd *exec.Cmd, secs int) (int, bool) {
+	if err := cmd.Start(); err != nil {
+		return -1, false
+	}
+	done := make(chan error, 1)
+	go func() { done <- cmd.Wait() }()
+	select {
+	case <-done:
+		if cmd.ProcessState == nil {
+			return -1, false
+		}
+		return cmd.ProcessState.ExitCode(), false
+	case <-time.After(time.Duration(secs) * time.Second):
+		cmd.Process.Kill()
+		<-done
+		return -1, true
+	}
+}
+
+// ShrinkMain minimises the replay file in place (child process of a batch).
+func ShrinkMain(path string, budgetSecs int) int {
+	b, err := os.ReadFile(path)
+	if err != nil {
+		return 2
+	}
+	rf := &ReplayFile{}
+	if err := json.Unmarshal(b, rf); err != nil {
+		return 2
+	}
+	p := Registry[rf.Property]
+	if p == nil {
+		return 2
+	}
+	env, closer, err := p.NewEnv(rf.Tier)
+	if err != nil {
+		return 2
+	}
+	defer closer()
+	save := func() {
+		b, _ := json.MarshalIndent(rf, "", " ")
+		tmp := path + ".tmp"
+		if os.WriteFile(tmp, b, 0o644) == nil {
+			os.Rename(tmp, path)
+		}
+	}
+	sig := rf.Signature
+	runs := 0
+	test := func(cand []uint32) (bool, []uint32) {
+		res, c := Execute(p.ID, rf.Tier, rf.Run, NewReplay(cand), env, nil, p.Fn, 0)
+		runs++
+		ok := res.Viol != nil && res.Viol.Sig == sig && res.Trouble == ""
+		return ok, c.Src.Rec
+	}
+	// keep the file up to date while shrinking: wrap test to save improvements
+	best := rf.Choices
+	wrapped := func(cand []uint32) (bool, []uint32) {
+		ok, norm := test(cand)
+		if ok {
+			n := append([]uint32(nil), norm...)
+			for len(n) > 0 && n[len(n)-1] == 0 {
+				n = n[:len(n)-1]
+			}
+			if less(n, best) {
+				best = n
+				rf.Choices = n
+				rf.ShrinkRun = runs
+				save()
+			}
+		}
+		return ok, norm
+	}
+	choices, _ := Shrink(rf.Choices, wrapped, 400, time.Duration(budgetSecs)*time.Second)
+	rf.Choices = choices
+	rf.ShrinkRun = runs
+	final, c2 := Execute(p.ID, rf.Tier, rf.Run, NewReplay(choices), env, nil, p.Fn, 3000)
+	if final.Viol != nil && final.Viol.Sig == sig {
+		rf.Violation = final.Viol
+		rf.LogHash = final.Hash
+		rf.Log = c2.Log.Lines
+		rf.Decoded = final.Decoded
+		rf.Sample = final.Sample
+		if p.Classify != nil {
+			rerun := func(cfg map[string]string) *RunResult {
+				rr, _ := Execute(p.ID, rf.Tier, rf.Run, NewReplay(choices), env, cfg, p.Fn, 0)
+				return rr
+			}
+			if s := p.Classify(final.Viol, rerun); s != "" {
+				rf.KnownSig = s
+			}
+		}
+	}
+	save()
+	return 0
 }
